@@ -375,8 +375,13 @@ def map_variables(
       )
       if has_mutable_cols:
         fn(scopes, *args, **kwargs)
-        target, _ = repack(scopes)
-        target = tuple(map_out_fn(x) for x in target)
+        init_target, _ = repack(scopes)
+        init_target = tuple(map_out_fn(x) for x in init_target)
+        # repack only returns the mutable collections: the read-only target
+        # collections must stay visible to the transformed function.
+        target = tuple(
+          {**x, **init_x} for x, init_x in zip(target, init_target)
+        )
     target = tuple(map_in_fn(unfreeze(x)) for x in target)
     mfilter = True
     if not is_target_out:
